@@ -331,6 +331,16 @@ Proof.
 Qed.
 Print Assumptions c13_cfi_rule_order_independent.
 
+(* ... instantiated at the arm64 walker that the Q cases compare with the real unwinder (register and alias tables
+   regenerated from CONTEXT_ARM64, bytewise name order): no hypothesis left *)
+Theorem c13_cfi_arm64_order_independent :
+  forall (iter1 iter2 : list (bytes * option Z) -> list (bytes * option Z)) (written : list (bytes * option Z)) (callee : bytes -> Z),
+  Permutation (iter1 (cfi_map bytes_eqb written)) (cfi_map bytes_eqb written) ->
+  Permutation (iter2 (cfi_map bytes_eqb written)) (cfi_map bytes_eqb written) ->
+  a64_walk iter1 written callee = a64_walk iter2 written callee.
+Proof. exact a64_walk_order_independent. Qed.
+Print Assumptions c13_cfi_arm64_order_independent.
+
 (* the rule that is applied for a register is the LAST one written for it (INIT line first, then the delta lines) *)
 Theorem c13_cfi_last_rule_wins :
   forall (K E : Type) (keqb : K -> K -> bool), (forall a b, keqb a b = true <-> a = b) ->
@@ -470,3 +480,14 @@ Example c13_nonvacuous_cfi :
   walk_cfi Nat.eqb Nat.ltb (alias_step arm64_slot) (fun m => m) written (fun _ => None) 29%nat = Some 13%nat /\
   walk_cfi Nat.eqb Nat.ltb (alias_step arm64_slot) (@rev _) written (fun _ => None) 29%nat = Some 13%nat.
 Proof. cbv zeta. repeat split. Qed.
+
+(* INIT `fp: 10 x19: 11`, delta `fp: 13 x29: 14 x31: 5 x19: <fails>`: fp and x29 are one register and x29 is applied last
+   (name order), the failed x19 rule un-forwards x19, x20 is inherited from the callee, x31 is not a register *)
+Example c13_nonvacuous_cfi_arm64 :
+  let b := bytes_of_string in
+  let written := [(b "fp", Some 10); (b "x19", Some 11); (b "fp", Some 13); (b "x29", Some 14); (b "x31", Some 5); (b "x19", None)] in
+  let callee := (fun _ : bytes => 77) in
+  a64_walk (fun m => m) written callee (b "fp") = Some 14 /\ a64_walk (@rev _) written callee (b "fp") = Some 14 /\
+  a64_walk (@rev _) written callee (b "x19") = None /\ a64_walk (@rev _) written callee (b "x20") = Some 77 /\
+  a64_walk (@rev _) written callee (b "lr") = None /\ a64_memoize (b "x30") = Some (b "lr") /\ a64_memoize (b "x31") = None.
+Proof. vm_compute. repeat split. Qed.
